@@ -138,8 +138,12 @@ Inductive conv :=
 | CEqCOpt (c t f : str)      (* None if absent else x == c ... t if b else f               *)
 | CTruthy (t f : str)        (* kept as is ... t if x else f                               *)
 | CConst (v : str)           (* ignored ... constant v                                     *)
-| CIntClock                  (* int(x) if x else None ... `v or now()` ... str(i): a zero or
-                                absent value is replaced by the clock (not modelled: put fails) *)
+| CIntClock                  (* int(x) if x is not None else None ... `v if v is not None else
+                                now()` ... str(i): only an ABSENT value is replaced by the clock
+                                (not modelled: put fails there)                              *)
+| CIntOr (d : N)             (* int(x) if x else None ... `v or d` ... str(i): a zero or absent
+                                value is replaced by d (the pre-fix message timestamp, d = the
+                                clock reading)                                               *)
 | CParent (k : str).         (* ignored ... the value the PARENT node carries under key k
                                 (retry/@id = receipt/@id)                                    *)
 
@@ -172,9 +176,11 @@ Definition conv_in (c : conv) (o : option str) : option fv :=
   | CTruthy _ _, Some x => Some (FStr x)
   | CTruthy _ _, None => Some FNone
   | CConst _, _ => Some FNone
-  | CIntClock, Some x =>
-    match dec x with Some n => Some (if n =? 0 then FNone else FInt n) | None => None end
+  | CIntClock, Some x => int_in x
   | CIntClock, None => Some FNone
+  | CIntOr d, Some x =>
+    match dec x with Some n => Some (FInt (if n =? 0 then d else n)) | None => None end
+  | CIntOr d, None => Some (FInt d)
   | CParent _, _ => Some FNone
   end.
 
@@ -193,6 +199,7 @@ Definition conv_out (c : conv) (v : fv) : option aval :=
   | CTruthy t f, v => Some (AStr (if truthy v then t else f))
   | CConst c, _ => Some (AStr c)
   | CIntClock, FInt n => Some (AStr (to_dec n))
+  | CIntOr _, FInt n => Some (AStr (to_dec n))
   | _, _ => None
   end.
 
@@ -300,6 +307,8 @@ Definition conv_inf_ok (c : conv) (e : emit) (d : dom) : bool :=
   | DDec, CIntOpt, EIfNotNone => true
   | DDec, CIntDef0, EAlways => true
   | DDec, CIntDef0, EIfNotNone => true
+  | DDec, CIntClock, EAlways => true
+  | DDec, CIntClock, EIfNotNone => true
   | DDecPos, CStr, _ => true
   | DDecPos, CInt, _ => true
   | DDecPos, CIntOpt, _ => true
